@@ -1024,6 +1024,17 @@ func (l *zvsLane) run(c *zvsCase, base *zvsBase, r *mrand.Rand, tryMs int) []int
 			s = &Signer{endpoints: []string{}, dialOptions: base.get(10000)}
 			break
 		}
+		if c.Ctx == "none" {
+			// no deadline anywhere: neither on the request context nor per try.  NewSigner always installs a per-try
+			// timeout, so this situation (a caller-built Signer) needs a literal; a panic here gives no verdict for the path
+			c.Info.Via = "literal"
+			eps := make([]string, n)
+			for m := range eps {
+				eps[m] = names[m] + ":4443"
+			}
+			s = &Signer{endpoints: eps, dialOptions: []grpc.DialOption{grpc.WithTransportCredentials(insecure.NewCredentials()), grpc.WithContextDialer(l.dial)}}
+			break
+		}
 		// the real constructor (so that whatever state a Signer carries is set up by the code itself); only the transport
 		// is redirected to the lane's in-memory servers by appending to the dial options
 		c.Info.Via = "dialer"
@@ -1059,11 +1070,18 @@ func (l *zvsLane) run(c *zvsCase, base *zvsBase, r *mrand.Rand, tryMs int) []int
 		var err error
 		pan, hang := false, false
 		// request budget: "tight" is shorter than one per-try timeout (only used when every failing endpoint fails fast)
-		budget := 60 * time.Second
+		budget, grace := 60*time.Second, 20*time.Second
 		if c.Ctx == "tight" {
 			budget = 1500 * time.Millisecond
 		}
 		ctx, cancel := context.WithTimeout(context.Background(), budget)
+		if c.Ctx == "none" {
+			// no deadline: every endpoint of such a case fails or answers at once, so Sign returns at once; the watchdog
+			// gives it 6 s
+			cancel()
+			ctx, cancel = context.WithCancel(context.Background())
+			budget, grace = 0, 6*time.Second
+		}
 		finished := make(chan struct{})
 		go func() {
 			defer close(finished)
@@ -1078,14 +1096,14 @@ func (l *zvsLane) run(c *zvsCase, base *zvsBase, r *mrand.Rand, tryMs int) []int
 		// watchdog: Sign has to return once its context has expired
 		select {
 		case <-finished:
-		case <-time.After(budget + 20*time.Second):
+		case <-time.After(budget + grace):
 			hang = true
 			cancel()
 			select {
 			case <-finished:
 			case <-time.After(10 * time.Second):
 			}
-			certs, comments, err = nil, nil, fmt.Errorf("verif: Sign did not return within its budget plus 20s")
+			certs, comments, err = nil, nil, fmt.Errorf("verif: Sign did not return within its budget plus %v", grace)
 		}
 		cancel()
 		// a signer that keeps connections offers a way to release them: use it (interface assertion, so that the harness
